@@ -593,8 +593,20 @@ class Fn:
                         if val is not None:
                             e = val
                             continue
-                    e = inner
-                    continue
+                    if isinstance(inner, tuple) and inner[0] == "place" and len(inner) == 3 and idx == len(proj) - 1 and inner[2] \
+                            and all(isinstance(q, str) for q in inner[2]) and str(place.get("ty", "")) in ("usize", "isize", "bool", "u8", "u16", "u32", "u64") \
+                            and not (isinstance(inner[1], tuple) and inner[1][:1] == ("ref",)):
+                        # `*&(*p).field` read as a scalar value (a by-reference binding in a match guard): the field as it is now
+                        e = ("load", inner[1], tuple(inner[2]), self.version_at(b, i, ("M", inner[2][0])))
+                        continue
+                    if isinstance(inner, tuple) and inner[0] == "place" and len(inner) == 3 and inner[2] and all(isinstance(q, str) for q in inner[2]) \
+                            and not (isinstance(inner[1], tuple) and inner[1][:1] == ("ref",)) and idx + 1 < len(proj) and proj[idx + 1]["k"] == "field":
+                        # `(*&(*p).a).b`: a field read through a reference to p's own memory (a getter returning `&self.a`): fall
+                        # through to the memory load below, rebased onto p (handled there)
+                        pass
+                    else:
+                        e = inner
+                        continue
                 # memory load: everything after this deref up to the next deref is a path
                 rest = proj[idx + 1:]
                 path = []
@@ -618,7 +630,12 @@ class Fn:
                 sub = {"local": place["local"], "proj": proj[: idx + 1 + consumed]}
                 mv = mem_var_of(sub)
                 ver = self.version_at(b, i, mv)
-                e = ("load", e, tuple(path), ver)
+                if isinstance(e, tuple) and e[:1] == ("ref",) and isinstance(e[1], tuple) and e[1][:1] == ("place",) and len(e[1]) == 3 and e[1][2] \
+                        and all(isinstance(q, str) for q in e[1][2]) and not (isinstance(e[1][1], tuple) and e[1][1][:1] == ("ref",)):
+                    # a load through `&(*p).a.b` (what a getter returning `&self.field` hands back) is a load of p's own memory
+                    e = ("load", e[1][1], tuple(e[1][2]) + tuple(path), self.version_at(b, i, ("M", e[1][2][0])))
+                else:
+                    e = ("load", e, tuple(path), ver)
                 tail = proj[idx + 1 + consumed:]
                 if tail:
                     return self._project(e, tail, b, i, {"local": place["local"], "proj": proj})
